@@ -21,9 +21,9 @@ from pytezos.operation import DEFAULT_GAS_RESERVE
 from pytezos.operation import MAX_OPERATIONS_TTL
 from pytezos.operation.content import ContentMixin
 from pytezos.operation.fees import calculate_fee
-from pytezos.operation.fees import default_fee
 from pytezos.operation.fees import default_gas_limit
 from pytezos.operation.fees import default_storage_limit
+from pytezos.operation.forge import forge_operation
 from pytezos.operation.forge import forge_operation_group
 from pytezos.operation.result import OperationResult
 from pytezos.rpc.errors import RpcError
@@ -172,7 +172,7 @@ class OperationGroup(ContextMixin, ContentMixin):
                     storage_limit if storage_limit is not None else default_storage_limit(x, constants),
                 )
             ),
-            'fee': lambda i, x: str(default_fee(x, gas_limit, minimal_nanotez_per_gas_unit) if i == 0 else 0),
+            'fee': lambda i, x: '0',  # set below: the first content pays for the whole group
         }
 
         def fill_content(idx, content):
@@ -182,12 +182,33 @@ class OperationGroup(ContextMixin, ContentMixin):
                     content[k] = v(idx, content) if callable(v) else v
             return content
 
+        contents = [fill_content(idx=i, content=x) for i, x in enumerate(self.contents)]
+
+        if contents and self.contents[0].get('fee') in ['', '0']:
+            # The node compares the total fee with the size of the whole signed operation and the total gas limit
+            manager_contents = [x for x in contents if validation_passes.get(x['kind']) == 3]
+            # branch, signature, fee:gas_limit:storage_limit mutez values (+3 bytes), contents other than the first
+            extra_size = 32 + self._signature_size() + 3 * 3
+            extra_size += sum(len(forge_operation(x)) for x in manager_contents[1:])
+            contents[0]['fee'] = str(
+                calculate_fee(
+                    content=contents[0],
+                    consumed_gas=sum(int(x['gas_limit']) for x in manager_contents),
+                    extra_size=extra_size,
+                    minimal_nanotez_per_gas_unit=minimal_nanotez_per_gas_unit,
+                )
+            )
+
         return self._spawn(
-            contents=[fill_content(idx=i, content=x) for i, x in enumerate(self.contents)],
+            contents=contents,
             protocol=protocol,
             chain_id=chain_id,
             branch=branch,
         )
+
+    def _signature_size(self) -> int:
+        """Size of the signature this group will be signed with (BLS signatures are longer)."""
+        return 96 if self.key.curve == b'BL' else 64
 
     def run(self, block_id: str = 'head'):
         """Simulate operation without signature checks.
@@ -271,7 +292,7 @@ class OperationGroup(ContextMixin, ContentMixin):
             raise RpcError.from_errors(OperationResult.errors(opg_with_metadata))
 
         fee_acc = 0
-        extra_size = 32 + 64  # size of serialized branch and signature + safe reserve
+        extra_size = 32 + self._signature_size()  # size of serialized branch and signature + safe reserve
         num_contents = len(opg_with_metadata['contents'])
         counter_offset = self.context.get_counter_offset()
         opg.contents.clear()
